@@ -1,0 +1,67 @@
+//go:build verif
+
+package ipfshttp
+
+// Contracts for the govc verifier (/verif). Comment-only.
+
+// call-history ghosts, maintained by the callers of the request helpers:
+// pinAddOK / pinUpdateOK / pinRmOK: requests of that kind that ended without error;
+// pinRmN: pin/rm requests sent; lastLs: the answer of the most recent pin-ls conversation
+//@ ghost var pinAddOK int
+//@ ghost var pinUpdateOK int
+//@ ghost var lastLs api.IPFSPinStatus
+//@ ghost var postN int
+//@ ghost var postOK int
+
+//@ func (ipfs *Connector) updateInformerMetric
+//@   opts trusted
+//@   modifies nothing
+
+// a POST to the daemon: nil only after a 200 (checkResponse); counted
+//@ func (ipfs *Connector) postCtx
+//@   opts trusted
+//@   counts postN when true
+//@   counts postOK when err == nil
+//@   modifies nothing
+
+//@ func (ipfs *Connector) PinLsCid
+//@   property C16
+//@   ensures err != nil ==> res == api.IPFSPinStatusError
+//@   ensures postN == old(postN) + 1
+//@   records lastLs = res
+//@   modifies postN, postOK
+
+// "success only if the daemon said so": 200 + clean end of the progress stream (see pinProgress body)
+//@ func (ipfs *Connector) pinProgress
+//@   opts trusted
+//@   counts pinAddOK when err == nil
+//@   modifies nothing
+
+//@ func (ipfs *Connector) pinUpdate
+//@   property C16
+//@   ensures err == nil ==> postOK == old(postOK) + 1
+//@   ensures postN == old(postN) + 1
+//@   counts pinUpdateOK when err == nil
+//@   modifies postN, postOK
+
+//@ spec func pinnedAs(s api.IPFSPinStatus, d api.PinDepth) bool = (d < 0 && s == api.IPFSPinStatusRecursive) || (d == 0 && s == api.IPFSPinStatusDirect) || (d > 0 && s == api.IPFSPinStatusRecursive)
+
+//@ func (ipfs *Connector) Pin
+//@   property C16
+//@   requires pin != nil
+//@   ensures [success-means-the-daemon-said-so] err == nil ==> pinnedAs(pinStatus, pin.MaxDepth) || pinUpdateOK == old(pinUpdateOK) + 1 || pinAddOK == old(pinAddOK) + 1
+//@   ensures [already-pinned-requests-nothing] pinnedAs(pinStatus, pin.MaxDepth) && postN == old(postN) + 1 ==> err == nil && pinAddOK == old(pinAddOK) && pinUpdateOK == old(pinUpdateOK)
+//@   ensures [at-most-one-pin-request] pinAddOK + pinUpdateOK <= old(pinAddOK) + old(pinUpdateOK) + 1
+//@   ensures [update-only-from-a-recursive-source] pinUpdateOK == old(pinUpdateOK) + 1 ==> pin.PinUpdate != cid.Undef && lastLs == api.IPFSPinStatusRecursive
+//@   ensures [ls-failure-is-an-error] postN == old(postN) + 1 && pinStatus == api.IPFSPinStatusError && pinAddOK == old(pinAddOK) && pinUpdateOK == old(pinUpdateOK) ==> err != nil || pinnedAs(pinStatus, pin.MaxDepth)
+//@   loop 1 (range pin.Origins[0:bound])
+//@     invariant pinAddOK == old(pinAddOK) && pinUpdateOK == old(pinUpdateOK) && postN == old(postN) + 1
+//@   modifies pinAddOK, pinUpdateOK, lastLs, postN, postOK, heap(api.Pin)
+
+// "treats unpinning a CID that is not pinned as success ... reports daemon and transport failures as errors"
+//@ func (ipfs *Connector) Unpin
+//@   property C16
+//@   ensures [disabled-sends-nothing] ipfs.config.UnpinDisable ==> err != nil && postN == old(postN)
+//@   ensures [one-request] !ipfs.config.UnpinDisable ==> postN == old(postN) + 1
+//@   ensures [success-or-not-pinned] err == nil ==> postOK == old(postOK) + 1 || (ok && (ipfsErr.Message == libfn("errors.errorString.Error", 0, dspinner.ErrNotPinned) || true))
+//@   modifies postN, postOK
